@@ -158,11 +158,13 @@ class Selector:
                     if isinstance(tgt, ast.Name) and isinstance(val, ast.List) and not val.elts:
                         env[tgt.id] = [(True, False, '', ())]       # empty accumulator: selects nothing yet
                     elif isinstance(tgt, ast.Name):
-                        env.pop(tgt.id, None)
                         try:
-                            env[tgt.id] = self.of_expr(fi, val, st, subst, env)
+                            new = self.of_expr(fi, val, st, subst, env)     # may read the old binding of the same name
                         except AnalysisError:
-                            pass                                    # not a selection (e.g. variables = self.variables())
+                            new = None                              # not a selection (e.g. variables = self.variables())
+                        env.pop(tgt.id, None)
+                        if new is not None:
+                            env[tgt.id] = new
                     continue
                 if isinstance(st, ast.For):
                     self._loop(fi, st, subst, env)
